@@ -417,6 +417,7 @@ type LoopSpec struct {
 }
 
 type SiteAssert struct {
+	Assume bool
 	Callee string // short callee name, e.g. "mta.BobMid" or "(*Int).Exp"
 	Ord    int
 	C      *Clause
@@ -749,6 +750,13 @@ func (cs *ContractSet) parseContractFile(path, pkgPath string, goFile bool) erro
 					return fail(fmt.Errorf("site needs ' : '"))
 				}
 				head := strings.TrimSpace(rest[:k])
+				assumeSite := false
+				if strings.HasSuffix(head, " assume") {
+					// site <callee>#<k> assume : expr -- a named, unchecked assumption at
+					// this call (non-degeneracy of secret random values); listed in the evidence
+					assumeSite = true
+					head = strings.TrimSpace(strings.TrimSuffix(head, " assume"))
+				}
 				ord := 0
 				if h := strings.LastIndex(head, "#"); h >= 0 {
 					ord, _ = strconv.Atoi(head[h+1:])
@@ -758,7 +766,7 @@ func (cs *ContractSet) parseContractFile(path, pkgPath string, goFile bool) erro
 				if err != nil {
 					return fail(err)
 				}
-				cur.Sites = append(cur.Sites, &SiteAssert{Callee: head, Ord: ord, C: c})
+				cur.Sites = append(cur.Sites, &SiteAssert{Callee: head, Ord: ord, C: c, Assume: assumeSite})
 			}
 		}
 	}
